@@ -9,7 +9,9 @@ def build(ctx):
     ctx.log("translate", out)
     if not ok:
         ctx.diag.append("translator failed: " + out[-300:])
-    C.prove(ctx, ["Props/C07.v"], ["Oblig/C07Obl.v", "Model/JsonCodecFacts.v"])
+    C.prove(ctx, ["Props/C07.v", "Props/C07File.v"],
+            ["Oblig/C07Obl.v", "Model/JsonCodecFacts.v", "Oblig/C07FileObl.v", "Model/JsonSurvive.v", "Model/JsonFileFacts.v",
+             "Model/JsonPostTable.v"])
     ok, out = C.build_harness()
     ctx.log("go build", out)
     if not ok:
@@ -19,7 +21,43 @@ def build(ctx):
     ctx.log("ocaml", out[-3000:])
     if not ok:
         ctx.diag.append("extracted model does not build: " + out[-600:])
+    ok, out = C.build_ocaml("c07file")
+    ctx.log("ocaml c07file", out[-3000:])
+    if not ok:
+        ctx.diag.append("extracted post-processing model does not build: " + out[-600:])
     return True
+
+
+def post_corr(ctx, n):
+    """FileFromJSONWith after the decode: extracted post-processing model against the real function."""
+    d = os.path.join(ctx.rundir, "post")
+    os.makedirs(d, exist_ok=True)
+    drv = os.path.join(C.BUILD, "ocaml", "c07file", "driver")
+    if not os.path.exists(drv):
+        ctx.diag.append("post-processing correspondence could not run: no driver")
+        return
+    hidden = os.path.join(d, "hidden.txt")
+    rc, out = C.sh("%s hidden > %s" % (drv, hidden), timeout=600)
+    if rc != 0:
+        ctx.diag.append("post-processing driver crashed: " + out[-300:])
+        return
+    rc, out = C.sh([os.path.join(C.BIN, "c07"), "post", "-out", d, "-n", str(n), "-hidden", hidden, "-repo", C.REPO], timeout=3000)
+    ctx.log("post", out[-1000:])
+    if rc != 0:
+        ctx.diag.append("post-processing correspondence could not run: " + out[-300:])
+        return
+    rc2, out2 = C.sh("%s %s %s > %s" % (drv, os.path.join(d, "cases.txt"), os.path.join(d, "ready.json"), os.path.join(d, "model.txt")), timeout=3000)
+    if rc2 != 0:
+        ctx.diag.append("extracted post-processing model crashed: " + out2[-300:])
+    ctx.compare("FileFromJSONWith post-processing", os.path.join(d, "model.txt"), os.path.join(d, "impl.txt"), os.path.join(d, "cases.txt"))
+    try:
+        import json
+        ctx.cov["post_processing"] = {"generator": json.load(open(os.path.join(d, "stats.json"))),
+                                      "roundtrip_theorem": json.load(open(os.path.join(d, "ready.json")))}
+        if ctx.cov["post_processing"]["roundtrip_theorem"].get("roundtrip_conditions_hold", 0) == 0:
+            ctx.diag.append("no generated file satisfies the hypotheses of C07_roundtrip_partial (vacuous)")
+    except (OSError, ValueError) as ex:
+        ctx.diag.append("post-processing statistics missing: %s" % ex)
 
 
 def oracle(ctx, n, sub="oracle"):
@@ -68,10 +106,12 @@ def search(ctx, factor):
 
 def run(ctx):
     ctx.search = search
-    ctx.trusted += ["jsontags analysis of the translator (struct tags, aux structs of the JSON methods, decode wrappers of file.go, constructor literals; syntactic)",
+    ctx.trusted += ["jsonpost analysis of the translator (switches of ConvertBatchType/NewBatch, type-code literals, call order in setBatchesFromJSON and FileFromJSONWith, datetimeformats, overwriteDateTimeFields; syntactic)",
+                    "jsontags analysis of the translator (struct tags, aux structs of the JSON methods, decode wrappers of file.go, constructor literals; syntactic)",
                     "encoding/json: text <-> tree, case-insensitive key matching, omitempty, decoding into existing values (modelled by enc/dec, validated by the correspondence run)"]
     ctx.assumptions += ["strings are valid UTF-8 (json.Marshal replaces invalid bytes); JSON objects carry no duplicate keys",
-                        "PARTIAL: the post-processing of FileFromJSONWith (type-code inference, CTX/ATX name packing, date normalisation, build, Create, Validate) and the writer are not modelled; the text-level statement is evaluated by the oracle on the implementation",
+                        "PARTIAL: C07_roundtrip_partial (write (from_json (to_json v)) = write v) is proved for file values whose tree is 'ready' (not ADV, addenda type codes present, CTX/ATX counts set, build under the file's options is the identity on every batch, timestamps shorter than 19 bytes, batch numbers and file control as Create computes them) and whose kept excused fields hold their decode-time values; FileHeader.Validate / BatchHeader.Validate / File.Validate are abstract predicates; ADV files, the reader (text -> file) and option-dependent renderings of the file header are covered by correspondence and oracle only",
+                        "post-processing model: nil elements of JSON arrays, the key advFileControl in a hand-written document, Unicode case folding of the OFFSET name are not modelled",
                         "the excused fields of Oblig/C07Obl.v (unexported option pointers, ids, categories, Batch.ADVControl, File.ADVControl, NotificationOfChange/ReturnEntries, FileHeader constants) are restored or recomputed by the decoder's post-processing or are not rendered (docs/C07.md)"]
     if not build(ctx):
         return
@@ -88,12 +128,13 @@ def run(ctx):
         ctx.compare("enc/dec/survives", os.path.join(d, "model.txt"), os.path.join(d, "impl.txt"), os.path.join(d, "cases.txt"))
     else:
         ctx.diag.append("correspondence could not run: " + out[-300:])
+    post_corr(ctx, ctx.scale(250, 4000))
     summ = oracle(ctx, ctx.scale(1500, 20000))
     ctx.add_summary(summ, "JSON round trip oracle")
     if ctx.tier == "thorough":
         s2 = cli(ctx, 24)
         ctx.add_summary(s2, "achcli -reformat")
-        ctx.cov["forbidden_vernacular"] = [x for x in C.forbidden_vernacular() if "JsonCodec" in x or "C07" in x or "JsonTags" in x]
+        ctx.cov["forbidden_vernacular"] = [x for x in C.forbidden_vernacular() if "JsonCodec" in x or "C07" in x or "JsonTags" in x or "JsonFile" in x or "JsonSurvive" in x or "JsonPost" in x]
 
 
 def replay(path):
